@@ -289,3 +289,40 @@ CLAIMED = {
         "technique": "deterministic simulation: seeded scheduler pre-empting real LockDir code at every transport op, ghost-state invariants",
     },
 }
+
+
+# What was added to a check after independently seeded changes showed a gap (DESIGN.md C.5);
+# appended to the level text in MANIFEST.json by tools/gen_manifest.py.
+EXTENSIONS = {
+    "C01": "Bound world: a heavyweight checkout bound to a master on its own store, fault points over the whole upload to the master (local tip must never move before the master accepted); look-alike sibling names (string prefix without path boundary) for specific_files/exclude.",
+    "C03": "Sources holding texts whose introducing revision is a ghost there (a replica that never received some merged-in revisions), same-serializer pack pairs; oracle referenced_text: every text a judged target inventory refers to is present.",
+    "C07": "Histories whose total reaches exactly 10^k revisions with nine packs per digit (the bound collapses to 1), and two writers crossing a digit-sum boundary together so that each one's autopack obsoletes the packs the other planned (retry loop with a changed total).",
+    "C08": "Unstack (set_stacked_on_url(None) / reconfigure) with and without faults, default stacking policy below a hosting directory (clone / sprout / init+push).",
+    "C09": "Two-writer phase (two actors, separate tree objects, lock_tree_write / op / unlock interleaved at index.lock, index read and commit for git and at every store op for bzr; final tree must equal a serial order of the acknowledged operations); rename_one / move with after=True onto occupied targets.",
+    "C10": "Redundant filters [D, path below D, sibling 'D-x'] compared with their minimal form; consecutive revision pairs and targeted filters naming an entry that stays under a moved ancestor.",
+    "C11": "Several named directories per call including look-alike pairs (one path a string prefix of the other).",
+    "C12": "User op 'recreate' (new file at a path the basis still versions); the territory of the remove defect fixed in c7126b4 is explored in every run.",
+    "C13": "Interrupt faults: KeyboardInterrupt / SystemExit delivered before the k-th os call of apply(), judged by the same all-or-nothing oracle as I/O errors.",
+    "C14": "Conflict injector 'duplicate content-less' and oracle duplicates_reported (two versioned trans ids with one final name and no conflict); apply() exceptions after a clean resolve are their own class.",
+    "C15": "Runs that keep 10-12 shelves alive at once (ids unique and increasing, last_shelf, earlier shelf files byte-identical).",
+    "C16": "About 20% of uncommits run with the local or the master tip write failing (err_before at the put of last-revision, or a pre_change_branch_tip hook raising TipChangeRejected): nothing may have changed.",
+    "C17": "Edit shapes copy_then_move (git: byte-identical copy plus rename/removal of the source) and vacate_reuse (bzr: directory path vacated and re-used by a new directory with children).",
+    "C19": "Conflicts without a BASE helper (file absent from the merge base) and helper files deleted by the user before resolve.",
+    "C20": "Two-actor phase: resolve(paths) against add_conflicts / resolve from a second tree object, interleaved at storage ops; the final list must equal a serial order.",
+    "C23": "Concurrent commits from two checkouts of one master (random interleaving and a template parking the first committer right before the master lock); pull --local followed by plain pull from an independent branch.",
+    "C24": "Two-writer races: merge_to against set_tag/delete_tag on the same destination through separate objects, 6-12 rounds per run; a placement of the merge among the other writer's calls must explain final dict, returned (updates, conflicts) and each call's outcome.",
+    "C25": "Nested lines (line branched from a merged revision, merges of merges), ranges whose limits are dotted revisions, every emitted revno compared with the branch's own, limit-prefix oracle at levels >= 2 for limits 1..8.",
+    "C31": "Two-connection phase: two client actors, each with its own medium and server thread, pre-empted at store operations inside the request jail.",
+    "C32": "Outer lock spans (lock_write; 2-5 operations; unlock), failed retransmissions (second reset), injected server disk errors, repetition of a failed operation inside the same lock (in place / after medium reset / after reopen); oracles false_success and inplace_retry.",
+    "C33": "Ghost-fill sessions: a second process fetches a ghost into the served repository at an RPC boundary or interleaved at store ops after the client has learnt it as missing; every recipe must still replay to the client's seen set.",
+    "C35": "Commits that free a path (remove / rename away / swap) and move an unchanged file or directory onto it.",
+    "C40": "Side lines of 9-13 revisions merged back inside one v4 bundle (inventory cache eviction in the installer).",
+    "C41": "Whitespace-only sibling perturbations (trailing/leading blanks and tabs on message and property lines, blank-only lines).",
+    "C43": "Freed-path shapes (rename X away or delete a non-empty directory, new directory with a new file id at X) and renames with an exec flip of an unchanged text.",
+    "C44": "Renames followed by an exec flip with unchanged text.",
+    "C45": "Tree formats 2a / 1.14 / 1.14-rich-root (knit-pack: one chunk per line), 33-100 KiB files with line ends on 32 KiB block boundaries and NULs only in later blocks, binaries with a NUL-free first line, a merge op.",
+    "C46": "Nested git checkouts linked by a .git file; a second actor adding a listed path while clean-tree waits at its confirmation prompt (the prompt is a scheduling point).",
+    "C49": "err_before faults (PermissionDenied, TransportError, ConnectionError, NoSuchFile when really absent) on the n-th read of a get/set/remove/save script: unrelated durable options must survive.",
+    "C51": "Fault points (crash before/after, err_before, torn append) enumerated over the storage ops of write_plan / remove_plan: a fresh process sees no plan or the complete plan.",
+    "C52": "Non-ancestor revisions in the repository that a conversion destroys (dead head, tag on a non-ancestor, pending merge); knit (format-3) working trees behind a LocalTransport-subclass seam with fault points enumerated over the tree conversion.",
+}
